@@ -27,6 +27,7 @@ RULE = ("random source programs (5-40 statements) over the classical, array and 
         "assembled by the repo, checked structurally, then executed on the real Executor after a seeding subroutine "
         "that defines all 16 R registers, and compared with R-INTERP on the source."
         ' Text sources also use zero-padded literals, register indices and addresses; IR sources are built whole, grown in place with commands.append, or grown by re-assigning commands. '
+        ' IR sources also share one operand / command object between equal occurrences. '
         "Non-trivial = the reference run "
         "executed >= 6 source instructions, the program contains >= 1 literal that needs a scratch register and >= 1 "
         "label; distinct = distinct program text / IR description.")
